@@ -144,11 +144,13 @@ def rule_d(prog, rep):
         okw = all(any(k == "aweights" for k, v in e["kwargs"]) for e in cv)
         rep.check(okT and okw, "R-C18-d", fi.fq, "covariance (weights %s) delegates to numpy.cov(segment.T, aweights=...)" % w, "%d call sites" % len(cv), "numpy.cov is not given the transposed segment with aweights")
     # unweighted stddev: sqrt(varsums / (N - 1))
-    ms = AT.model(prog, "xfuncs", "xfunc_stddev", aggr.Config())
-    fi, I, fr = ms.fill
-    sq = [e for e in I.events if e.kind == "call" and e["name"] == "numpy.sqrt"]
-    ok = bool(sq) and all(e["args"][0].op == "binop" and e["args"][0].args[0] == "/" and e["args"][0].args[2].op == "binop" and e["args"][0].args[2].args[0] == "-" and tm.is_const(e["args"][0].args[2].args[2], 1) for e in sq)
-    rep.check(ok, "R-C18-d", fi.fq, "unweighted stddev = sqrt(sum of squared deviations / (N - 1))", "%d call sites" % len(sq), "divisor is not N - 1")
+    for co in (True, False):
+        ms = AT.model(prog, "xfuncs", "xfunc_stddev", aggr.Config(coords=co, N=not co))
+        fi, I, fr = ms.fill
+        sq = [e for e in I.events if e.kind == "call" and e["name"] == "numpy.sqrt"]
+        ok = bool(sq) and all(e["args"][0].op == "binop" and e["args"][0].args[0] == "/" and e["args"][0].args[2].op == "binop" and e["args"][0].args[2].args[0] == "-" and tm.is_const(e["args"][0].args[2].args[2], 1) for e in sq)
+        rep.check(ok, "R-C18-d", fi.fq, "unweighted stddev (%s) = sqrt(sum of squared deviations / (N - 1))" % ("by coordinates" if co else "no coordinates"), "%d call sites" % len(sq), "divisor is not N - 1",
+                  witness={"inputs": "two rows 1 and 3: 1.414 expected"})
 
 
 def main(tier):
